@@ -529,6 +529,16 @@ func c06R4(c *Ctx, r *Report) {
 			if !anyIn(sliceOf(a[2]), fieldPathOf(isValue(g.Params[0]), "file")) {
 				problems = append(problems, "generated records do not carry the file name")
 			}
+			// an omitted TTL on a generated line takes $TTL / the last stated TTL: the sub-parser gets the parent's TTL state
+			okTtl := false
+			for _, st := range storesToField(g, "ZoneParser", "defttl") {
+				if fa, ok := st.Addr.(*ssa.FieldAddr); ok && fa.X != g.Params[0] && anyIn(sliceOf(st.Val), fieldPathOf(isValue(g.Params[0]), "defttl")) {
+					okTtl = true
+				}
+			}
+			if !okTtl {
+				problems = append(problems, "the remembered TTL ($TTL / last stated) is not handed to the $GENERATE sub-parser: generated records without a TTL always get the fixed default")
+			}
 		}
 		r.check(len(problems) == 0, "C06.R4.sub-parsers", "generate", c.pos(g.Pos()), "origin, file", "%s", strings.Join(problems, "; "))
 	}
